@@ -48,6 +48,16 @@ def work_paths(chunk, st):
             has, _complete = c02._json_has_report(rj.stdout, F.advertised(rj, arch))
             if has != report.TextReport(ref.stdout).has_alg_report():
                 st.violation('%s:json-path:report-shown-differs-from-text-run' % arch, d)
+        # ... and with progress (-v) and debug (-d) messages switched on: the code that talks about a failure runs as well
+        if plan and plan[0][0][1] >= 1:
+            for vopt in ('-v', '-d'):
+                rv = explore.run_plan(F.scenario(arch, short, extra_opts=[vopt]), plan)
+                st.execution(rv.world, outcome=(arch, vopt, rv.status, bool(rv.hang), fk), root=(arch, short, plan, vopt), nontrivial=(arch, plan, vopt), detail='light')
+                if rv.hang or rv.exc or rv.status not in (0, 1, 2, 3):
+                    st.violation('%s:verbose-path:crash-hang-or-status-%s:%s' % (arch, rv.status, F._trace_site(rv.stdout + rv.stderr)),
+                                 {'arch': arch, 'short': short, 'plan': plan, 'option': vopt, 'status': rv.status, 'text_status': ref.status, 'hang': rv.hang, 'exc': rv.exc, 'stdout_tail': rv.stdout[-300:]})
+                elif rv.status != ref.status:
+                    st.violation('%s:verbose-path:status-differs-from-plain-run' % arch, {'arch': arch, 'plan': plan, 'option': vopt, 'status': rv.status, 'text_status': ref.status})
         # ... and the policy-making path (-M): whatever the peer did, a documented status; a policy file only after a usable handshake
         if arch not in ('E', 'E1', 'E2', 'F'):
             import os
